@@ -29,6 +29,8 @@ type Cfg struct {
 	AllowFailPct int
 	ContinuePct  int // percentage of pipelines with continue_running_tasks_after_failure
 	Retention    bool
+	DiskStore    bool     // real JsonDataStore in a temporary directory behind the gate
+	RichPayload  bool     // job variables, users and error texts of every shape
 	ReloadKinds  []string // restricts the edit kinds of reloads (nil = all)
 
 	Weights map[string]int // action weights
